@@ -1,6 +1,118 @@
 """E2: Kani harnesses on the real crates (scratch copy with injected #[cfg(kani)] modules)."""
-import os, re, subprocess, time, json
-from runner import VERIF, ToolError, offline_env
+import os, re, subprocess, time, json, signal
+from runner import VERIF, CACHE, ToolError, offline_env
+
+# file in the scratch copy  ->  harness module appended under cfg(kani)
+INJECT = {
+    "star-sharks": [("sharks/src/share_ff.rs", "kani/sharks_ff.rs", "verif_kani"),
+                    ("sharks/src/lib.rs", "kani/sharks_lib.rs", "verif_kani_lib")],
+    "adss": [("adss/src/lib.rs", "kani/adss.rs", "verif_kani")],
+    "sta-rs": [("star/src/lib.rs", "kani/star.rs", "verif_kani")],
+    "ppoprf": [("ppoprf/src/ppoprf.rs", "kani/ppoprf.rs", "verif_kani")],
+}
+_injected = set()
+
+def inject(repo_copy, package):
+    key = (repo_copy, package)
+    if key in _injected:
+        return
+    for rel, mod, name in INJECT.get(package, []):
+        src = os.path.join(VERIF, mod)
+        if not os.path.exists(src):
+            continue
+        p = os.path.join(repo_copy, rel)
+        if not os.path.exists(p):
+            raise ToolError("lost anchor: %s does not exist" % rel)
+        with open(p, "a") as f:
+            f.write('\n#[cfg(kani)] #[path = "%s"] mod %s;\n' % (src, name))
+    _injected.add(key)
+
+def _run(cmd, cwd, timeout, mem_gb=24):
+    t0 = time.time()
+    env = offline_env({"CARGO_TARGET_DIR": os.path.join(CACHE, "ktarget")})
+    # address-space limit so a blow-up cannot take the box down (no swap here)
+    pre = "ulimit -v %d; exec " % (mem_gb * 1024 * 1024)
+    p = subprocess.Popen(["bash", "-c", pre + " ".join("'%s'" % c for c in cmd)], cwd=cwd, env=env,
+                         stdout=subprocess.PIPE, stderr=subprocess.STDOUT, text=True, start_new_session=True)
+    try:
+        out, _ = p.communicate(timeout=timeout)
+        to = False
+    except subprocess.TimeoutExpired:
+        os.killpg(p.pid, signal.SIGKILL)
+        out, _ = p.communicate()
+        to = True
+    return out, time.time() - t0, to, p.returncode
+
+def parse(out):
+    """-> {harness_short_name: {status, time, failed_checks}}"""
+    res = {}
+    cur = {}   # thread -> harness
+    buf = {}   # thread -> lines
+    single = None
+    for ln in out.splitlines():
+        m = re.match(r"(?:Thread (\d+): )?Checking harness ([\w:]+)\.\.\.", ln)
+        if m:
+            th = m.group(1) or "0"
+            cur[th] = m.group(2).split("::")[-1]; buf[th] = []
+            single = th
+            continue
+        m = re.match(r"Thread (\d+): ?(.*)", ln)
+        if m:
+            single = m.group(1)
+            ln = m.group(2)
+        if single is not None and single in cur:
+            buf[single].append(ln)
+            m2 = re.match(r"VERIFICATION:- (\w+)", ln)
+            if m2:
+                h = cur[single]
+                res.setdefault(h, {})["status"] = m2.group(1)
+                res[h]["failed_checks"] = "\n".join(l for l in buf[single] if l.startswith("Failed Checks") or l.strip().startswith("File:"))
+                res[h]["stubs"] = [l.strip() for l in buf[single] if l.strip().startswith("- Stub:")]
+            m3 = re.match(r"Verification Time: ([\d.]+)s", ln)
+            if m3:
+                res.setdefault(cur[single], {})["time"] = float(m3.group(1))
+    return res
 
 def run_harnesses(repo_copy, workdir, harnesses, tier):
-    raise ToolError("kani runner not built yet")
+    """harnesses: list of dicts(package, harness, about, complete, bound, flags, timeout, expect_fail).
+    returns [(h, {status: SUCCESSFUL|FAILED|TIMEOUT|ERROR, wall_s, ...})]"""
+    groups = {}
+    for h in harnesses:
+        groups.setdefault((h["package"], tuple(h.get("flags", []))), []).append(h)
+    results = []
+    for (pkg, flags), hs in groups.items():
+        inject(repo_copy, pkg)
+        cmd = ["cargo", "kani", "-p", pkg, "--output-format=terse", "-j", str(min(8, max(1, len(hs))))] + list(flags)
+        for h in hs:
+            cmd += ["--harness", h["harness"]]
+        tmo = max(h.get("timeout", 300) for h in hs) + 120
+        out, wall, to, rc = _run(cmd, repo_copy, tmo)
+        parsed = parse(out)
+        if not parsed and not to:
+            # build failure: the changed tree does not compile under Kani, or the harness is stale
+            raise ToolError("cargo kani produced no verdict for %s:\n%s" % (pkg, out[-2500:]))
+        for h in hs:
+            r = parsed.get(h["harness"])
+            if r is None or "status" not in r:
+                results.append((h, {"status": "TIMEOUT" if to else "ERROR", "wall_s": wall, "tail": out[-1500:]}))
+                continue
+            st = "SUCCESSFUL" if r["status"] == "SUCCESSFUL" else "FAILED"
+            ent = {"status": st, "wall_s": r.get("time", 0.0), "failed_checks": r.get("failed_checks", ""),
+                   "stubs": r.get("stubs", []), "tail": ""}
+            if st == "FAILED" and not h.get("expect_fail"):
+                ent["playback"] = playback(repo_copy, pkg, flags, h)
+                ent["tail"] = r.get("failed_checks", "")
+            results.append((h, ent))
+    return results
+
+def playback(repo_copy, pkg, flags, h):
+    """re-run one failed harness with concrete playback to obtain the values of every kani::any()"""
+    cmd = ["cargo", "kani", "-p", pkg, "--harness", h["harness"], "-Z", "concrete-playback",
+           "--concrete-playback=print"] + list(flags)
+    out, wall, to, rc = _run(cmd, repo_copy, h.get("timeout", 300) + 120)
+    vals = []
+    for m in re.finditer(r"vec!\[([0-9, ]*)\]", out):
+        vals.append([int(x) for x in m.group(1).split(",") if x.strip()])
+    if not vals:
+        return None
+    return {"kani_any_values_in_order": vals, "harness": h["harness"]}
